@@ -176,7 +176,8 @@ pub fn judge(root: &Path, c: &Case) -> Result<(u32, u32, bool), (String, String)
         let (ret, calls, hit, h) = r.map_err(|p| ("c03:panic".to_string(), p))?;
         n_calls = calls;
         fault_hit = hit;
-        let failed_fsync = all.iter().any(|e| e.call == "fsync" && e.injected);
+        // a failed flush of a value file (arg = 1 marks a directory descriptor: flushing a directory is not flushing a value)
+        let failed_fsync = all.iter().any(|e| e.call == "fsync" && e.injected && e.arg == 0);
         if failed_fsync {
             let ok = match &ret {
                 Ret::Err(_) => true,
